@@ -25,7 +25,7 @@ def _run(binary, env, args, timeout=300, extra_env=None):
             k, v = line[5:].split('=')
             res['knobs'][k] = int(v)
     if 'PROGRAM\n' in r.stdout:
-        res['program'] = r.stdout.split('PROGRAM\n', 1)[1].strip()
+        res['program'] = r.stdout.split('PROGRAM\n', 1)[1].split('\nSTDERR\n')[0].strip()
     return res
 
 
